@@ -87,16 +87,18 @@ fn name_of(path: &Path, recursive: bool) -> String {
 }
 
 fn kind_of(name: &str) -> Watcher {
-	if name == "poll" {
-		Watcher::Poll(Duration::from_millis(100))
-	} else {
-		Watcher::Native
+	match name {
+		"poll" => Watcher::Poll(Duration::from_millis(100)),
+		// the same backend with another interval is another watcher kind
+		"poll2" => Watcher::Poll(Duration::from_millis(700)),
+		_ => Watcher::Native,
 	}
 }
 
 fn kind_name(k: Watcher) -> &'static str {
 	match k {
 		Watcher::Native => "native",
+		Watcher::Poll(d) if d == Duration::from_millis(700) => "poll2",
 		_ => "poll",
 	}
 }
